@@ -17,8 +17,8 @@ BS = "OP2Utility::Archive::BitStreamReader"
 
 DECLINED = [
     "equality of the decoded bytes with a reference decoder (values)",
-    "equivalence of drain schedules: needs the relational invariant between read and write index; the read-side bounds of "
-    "CopyAvailableData / GetInternalBuffer (4096 - read, write - read) are outside the mask domain",
+    "equivalence of drain schedules: needs the relational invariant between read and write index (that write - read does not "
+    "wrap at the second copy of CopyAvailableData is not decided; only the two per-copy bounds are)",
     "termination of the tree walk (depends on the declined tree invariants of C15)",
     "that an independent encoder's payload decodes to a string that begins with the payload (values)",
 ]
@@ -269,6 +269,54 @@ def decode_order(F, S):
     return out
 
 
+def drain_copies(F, S):
+    """CopyAvailableData: each memcpy out of the window copies no more than the caller's remaining room and no more than the
+    window holds from the read index on (up to the window's end, or up to the write index)."""
+    fn = F.fn(HL + "::CopyAvailableData", nparams=2)
+    eng = Engine(F, S)
+    eng.analyze(fn, frozenset())
+    out = []
+    size = P(fn, 1)
+    rd = ("mem", ("this",), "m_BuffReadIndex")
+    wr = ("mem", ("this",), "m_BuffWriteIndex")
+    win = F.record(HL)
+    ext = None
+    for f in win["fields"]:
+        if f["name"] == "m_DecompressBuffer":
+            ext = f["width_bits"] // 8
+    if ext is None:
+        raise AnalysisBroken("HuffLZ::m_DecompressBuffer not found")
+    n = 0
+    for nd in fn.nodes:
+        if nd["k"] not in CALLS or nd.get("fname") != "memcpy":
+            continue
+        n += 1
+        site = final_site_facts(eng, fn, nd["id"]) or set()
+        a = [fn.term(x) for x in nd["args"]]
+        cnt = a[2]
+        inst = "%s#memcpy%d" % (fn.qn, n)
+        src_ok = a[1] == ("un", "&", ("idx", ("mem", ("this",), "m_DecompressBuffer"), rd))
+        room = prove_le(site, cnt, size)
+        held = prove_le(site, cnt, ("op", "-", ("const", ext), rd)) or prove_le(site, cnt, ("op", "-", wr, rd))
+        req = "memcpy out of the window: count <= caller's remaining room, and <= %d - read index or <= write index - read index" % ext
+        if src_ok and room and held:
+            out.append(ok("R-COPYEXT", inst, fn.loc(nd["id"]), fn.qn, req, "both bounds hold at the copy"))
+        else:
+            why = []
+            if not src_ok:
+                why.append("source is %s" % fmt_term(a[1]))
+            if not room:
+                why.append("%s <= %s not established" % (fmt_term(cnt), fmt_term(size)))
+            if not held:
+                why.append("%s not bounded by what the window holds" % fmt_term(cnt))
+            out.append(bad("R-COPYEXT", inst, fn.loc(nd["id"]), fn.qn, req, "; ".join(why) + "; facts at site: " + facts_txt(site)))
+    # the terms above are read through conversions; a conversion that can change the value (size_t -> int ...) must be guarded
+    from ..rules_narrow import r_narrow
+    o2, _ = r_narrow(F, S, fn, explicit_only=False)
+    out += [o for o in o2 if "accumulation in" not in o.required]
+    return out, n
+
+
 def check(F, run, tier):
     S = Summaries(F)
     run.declined = DECLINED
@@ -291,15 +339,20 @@ def check(F, run, tier):
     run.floor("buffer-fetches", n, 3)
     run.add(c15.capacity(F, S))
     run.add(decode_order(F, S))
+    obs, n = drain_copies(F, S)
+    run.add(obs)
+    run.floor("drain-copies", n, 2)
     ex = F.fn("OP2Utility::Archive::VolFile::ExtractFileLzh", nparams=2)
     o, k = raw_io_extents(F, S, [ex], "Write")
     run.add(o)
     loops = [nd for nd in ex.nodes if nd["k"] == "DoStmt"]
     good = False
     if len(loops) == 1:
-        lenv = [d for nd in ex.nodes if nd["k"] == "DeclStmt" for d in nd.get("decls", []) if d.get("n") == "length"]
+        # the loop variable is whatever GetInternalBuffer fills in (its address is the call's argument)
+        gib = [nd for nd in ex.nodes if nd["k"] in CALLS and nd.get("fname") == "GetInternalBuffer" and nd.get("args")
+               and nd["id"] in ex.subtree(loops[0]["body"])]
         cond = ex.term(loops[0]["cond"])
-        good = bool(lenv) and cond == ("var", "length", lenv[0]["d"])
+        good = len(gib) == 1 and ex.term(gib[0]["args"][0]) == ("un", "&", cond) and cond[0] == "var"
     inst = "OP2Utility::Archive::VolFile::ExtractFileLzh#drain-loop"
     if good and o and all(x.status == "discharged" for x in o):
         run.add(ok("R-SEQ", inst, ex.loc(loops[0]["id"]), ex.qn, "do { (p, n) = GetInternalBuffer(); Write(p, n); } while (n)", "loop ends only on a zero length"))
